@@ -49,3 +49,38 @@ impl UtxoStore for MemStore {
         Ok(self.utxos.iter().filter(|u| refs.contains(&u.r#ref)).cloned().collect())
     }
 }
+
+
+/// A store whose answers are not stable: every fetch reports each UTxO with one lovelace more or less than the
+/// fetch before (an indexer following the chain while a resolution is under way). A resolution against it never
+/// sees the same inputs twice, so only its own bound on rounds can end it.
+pub struct FlickeringStore {
+    pub inner: MemStore,
+    pub fetches: std::sync::atomic::AtomicU64,
+}
+
+impl FlickeringStore {
+    pub fn new(utxos: Vec<Utxo>) -> Self {
+        FlickeringStore { inner: MemStore::new(utxos), fetches: std::sync::atomic::AtomicU64::new(0) }
+    }
+}
+
+impl UtxoStore for FlickeringStore {
+    async fn narrow_refs(&self, pattern: UtxoPattern<'_>) -> Result<HashSet<UtxoRef>, Error> {
+        self.inner.narrow_refs(pattern).await
+    }
+
+    async fn fetch_utxos(&self, refs: HashSet<UtxoRef>) -> Result<UtxoSet, Error> {
+        let n = self.fetches.fetch_add(1, std::sync::atomic::Ordering::SeqCst);
+        let set = self.inner.fetch_utxos(refs).await?;
+        Ok(set
+            .into_iter()
+            .map(|mut u| {
+                if n % 2 == 1 {
+                    u.assets = u.assets.clone() + tx3_tir::model::assets::CanonicalAssets::from_naked_amount(1);
+                }
+                u
+            })
+            .collect())
+    }
+}
